@@ -174,6 +174,101 @@ theorem retain_go_spec (X : Ctx) (hq : ∀ k, X.o.panicAt k = false) (f : Vec.Pr
       · simpa [keptFrom, hf'] using habs'
       · simpa [rejFrom, hf'] using hperm
 
+/-- a comparison callback that returns (any answer, possibly depending on hidden state) and leaves
+    the vector and the trace alone -/
+def SameSpec (same : Nat → Elem → Elem → VM Bool) : Prop :=
+  ∀ k a b (s : St), ∃ r s', same k a b s = (.ok r, s') ∧ s'.v = s.v ∧ s'.sys.tr = s.sys.tr
+
+/-- the scan of `dedup_by` with an ARBITRARY answer sequence: survivors are a sublist in order,
+    the others end up behind them, nothing is lost or duplicated -/
+theorem dedup_go_spec (X : Ctx) (same : Nat → Elem → Elem → VM Bool) (hs : SameSpec same) :
+    ∀ (rest kept rej : List Elem) (k : Nat) (s : St), Abs X s.v (kept ++ rej ++ rest) → s.v.isDefault = false →
+    kept ≠ [] →
+    ∃ s' k2 r2 rej', Vec.dedup_by.go same (.at (dataOff s.v.align)) rest.length (kept.length + rej.length) kept.length k s =
+        (.ok (kept ++ k2).length, s') ∧
+      Abs X s'.v ((kept ++ k2) ++ rej') ∧ k2.Sublist rest ∧ (k2 ++ r2).Perm rest ∧ rej'.Perm (rej ++ r2) ∧
+      s'.v.cap = s.v.cap ∧ s'.v.isDefault = false ∧ s'.v.align = s.v.align ∧
+      s'.v.blk.map (·.bid) = s.v.blk.map (·.bid) ∧ s'.sys.tr = s.sys.tr := by
+  intro rest
+  induction rest with
+  | nil =>
+    intro kept rej k s h hd _
+    refine ⟨s, [], [], rej, ?_, by simpa using h, List.Sublist.refl _, by simp, by simp, rfl, hd, rfl, rfl, rfl⟩
+    simp [Vec.dedup_by.go]
+  | cons e rest ih =>
+    intro kept rej k s h hd hk
+    have hlen : kept.length + rej.length < (kept ++ rej ++ e :: rest).length := by simp
+    have hkl : 0 < kept.length := List.length_pos_iff.mpr hk
+    have h1 := rd_abs X s _ h hd (kept.length + rej.length) hlen
+    have he : (kept ++ rej ++ e :: rest)[kept.length + rej.length] = e := by
+      rw [List.getElem_append_right (by simp)]; simp
+    rw [he] at h1
+    have hlen2 : kept.length - 1 < (kept ++ rej ++ e :: rest).length := by simp; omega
+    have h1b := rd_abs X s _ h hd (kept.length - 1) hlen2
+    obtain ⟨r, s1, hsame, hv1, htr1⟩ := hs k e ((kept ++ rej ++ e :: rest)[kept.length - 1]) s
+    have habs_s1 : Abs X s1.v (kept ++ rej ++ e :: rest) := by rw [hv1]; exact h
+    have hd1 : s1.v.isDefault = false := by rw [hv1]; exact hd
+    have hal1 : s1.v.align = s.v.align := by rw [hv1]
+    unfold Vec.dedup_by.go
+    simp only [List.length_cons, VM.bind_run, h1, h1b, hsame]
+    cases r with
+    | false =>
+      simp only [Bool.not_false, if_true]
+      cases rej with
+      | nil =>
+        have habs1 : Abs X s1.v ((kept ++ [e]) ++ [] ++ rest) := by simpa using habs_s1
+        obtain ⟨s', k2, r2, rej', hrun, habs', hsub, hperm, hrp, hc, hd', hal, hb, htr⟩ :=
+          ih (kept ++ [e]) [] (k + 1) s1 habs1 hd1 (by simp)
+        refine ⟨s', e :: k2, r2, rej', ?_, by simpa using habs', hsub.cons₂ e, by simpa using hperm.cons e, hrp,
+          by rw [hc, hv1], hd', by rw [hal, hv1], by rw [hb, hv1], by rw [htr, htr1]⟩
+        simp only [List.length_nil, Nat.add_zero, ne_eq, not_true_eq_false, if_false]
+        rw [hal1] at hrun
+        simp only [List.length_append, List.length_singleton, List.length_nil, Nat.add_zero, List.length_cons] at hrun ⊢
+        simpa [Nat.add_assoc, Nat.add_comm 1] using hrun
+      | cons r0 rt =>
+        have hne : kept.length + (r0 :: rt).length ≠ kept.length := by simp
+        have hw : kept.length < (kept ++ (r0 :: rt) ++ e :: rest).length := by simp
+        obtain ⟨v', hsw, habs', hc, hd', hal, hb⟩ :=
+          sw_abs X s1 (kept ++ (r0 :: rt) ++ e :: rest) habs_s1 hd1 (kept.length + (r0 :: rt).length) kept.length hlen hw
+        have hw0 : (kept ++ (r0 :: rt) ++ e :: rest)[kept.length] = r0 := by
+          rw [List.getElem_append_left (by simp), List.getElem_append_right (by simp)]; simp
+        simp only [List.length_cons] at he habs'
+        simp only [hw0, he] at habs'
+        rw [retain_swap_list] at habs'
+        have habs1 : Abs X ({ s1 with v := v' } : St).v ((kept ++ [e]) ++ (rt ++ [r0]) ++ rest) := habs'
+        obtain ⟨s', k2, r2, rej', hrun, habs2, hsub, hperm, hrp, hc2, hd2, hal2, hb2, htr⟩ :=
+          ih (kept ++ [e]) (rt ++ [r0]) (k + 1) { s1 with v := v' } habs1 hd' (by simp)
+        refine ⟨s', e :: k2, r2, rej', ?_, by simpa using habs2, hsub.cons₂ e, by simpa using hperm.cons e, ?_,
+          by rw [hc2]; show v'.cap = _; rw [hc, hv1], hd2, by rw [hal2]; show v'.align = _; rw [hal, hv1],
+          by rw [hb2]; show v'.blk.map _ = _; rw [hb, hv1], by rw [htr]; exact htr1⟩
+        · simp only [hne, ne_eq, not_false_eq_true, if_true, VM.bind_run]
+          have hsw' : VM.sw (.at (dataOff s.v.align)) (kept.length + (r0 :: rt).length) kept.length s1 =
+              (.ok (), { s1 with v := v' }) := by rw [← hal1]; exact hsw
+          rw [hsw']
+          simp only
+          have : ({ s1 with v := v' } : St).v.align = s.v.align := by show v'.align = _; rw [hal, hv1]
+          rw [this] at hrun
+          simp only [List.length_append, List.length_singleton, List.length_cons] at hrun ⊢
+          rw [show kept.length + (rt.length + 1) + 1 = kept.length + 1 + (rt.length + 1) by omega]
+          simpa [Nat.add_assoc, Nat.add_comm 1] using hrun
+        · refine hrp.trans ?_
+          have : (rt ++ [r0]).Perm (r0 :: rt) := List.perm_append_singleton r0 rt
+          exact List.Perm.append_right _ this
+    | true =>
+      simp only [Bool.not_true, Bool.false_eq_true, if_false]
+      have habs1 : Abs X s1.v (kept ++ (rej ++ [e]) ++ rest) := by simpa using habs_s1
+      obtain ⟨s', k2, r2, rej', hrun, habs', hsub, hperm, hrp, hc, hd', hal, hb, htr⟩ :=
+        ih kept (rej ++ [e]) (k + 1) s1 habs1 hd1 hk
+      refine ⟨s', k2, e :: r2, rej', ?_, habs', hsub.cons e, ?_, ?_, by rw [hc, hv1], hd', by rw [hal, hv1],
+        by rw [hb, hv1], by rw [htr, htr1]⟩
+      · have hl : (rej ++ [e]).length = rej.length + 1 := by simp
+        rw [hl, hal1] at hrun
+        rw [Nat.add_assoc]; exact hrun
+      · exact (List.perm_middle).trans (hperm.cons e)
+      · refine hrp.trans ?_
+        rw [List.append_assoc]
+        exact List.Perm.append_left _ (by simp)
+
 theorem keptFrom_length_le (f : Vec.Pred1) (k : Nat) (es : List Elem) : (keptFrom f k es).length ≤ es.length := by
   induction es generalizing k with
   | nil => simp [keptFrom]
@@ -238,6 +333,79 @@ theorem retain_spec (X : Ctx) (hq : ∀ k, X.o.panicAt k = false) (f : Vec.Pred1
       · rw [afterDrops_own_tr, htr1]
         simp
 
+/-- `dedup_by` with an arbitrary comparison callback: a sublist of the original elements survives in
+    order (the first element always does), the others are destroyed exactly once; block and capacity
+    untouched -/
+theorem dedup_by_spec (X : Ctx) (hq : ∀ k, X.o.panicAt k = false) (same : Nat → Elem → Elem → VM Bool)
+    (hs : SameSpec same) (s : St) (es : List Elem) (h : Abs X s.v es) :
+    ∃ s' kept rej, Vec.dedup_by X same s = (.ok (), s') ∧ Abs X s'.v kept ∧
+      kept.Sublist es ∧ (kept ++ rej).Perm es ∧ ownEvents s'.sys.tr = ownEvents s.sys.tr ++ dropEvents X rej ∧
+      s'.v.cap = s.v.cap ∧ s'.v.blk.map (·.bid) = s.v.blk.map (·.bid) := by
+  have hL : (hsOf s.v s.sys.allocIdx).L = es.length := h.len_eq
+  by_cases hlt : es.length < 2
+  · have h1 : VM.lift X (dedup_by_pre X.env) s = (.ok (.ret 0), s) :=
+      lift_read X _ s _ (by
+        unfold dedup_by_pre
+        simp only [len_run, GM.bind_run, hL, hlt, decide_true, if_true, GM.pure_run])
+    refine ⟨s, es, [], ?_, h, List.Sublist.refl _, by simp, by simp [dropEvents], rfl, rfl⟩
+    unfold Vec.dedup_by
+    simp only [VM.bind_run, h1, VM.pure_run]
+  · have hd : s.v.isDefault = false := by
+      cases hd : s.v.isDefault
+      · rfl
+      · have := (h.sentinel hd).2; subst this; simp at hlt
+    obtain ⟨b, hb, hl, hsl, hlc, hel, hinit⟩ := h.alloc hd
+    have hal : b.lay.align = s.v.align := (make_layout_honest _ _ _ _ hl).2.1
+    have hcapb : s.v.cap ≤ b.slots.length := by rw [hsl]; exact physSlots_ge X.env _ _ _ hl h.elem_pos
+    have hptr := as_mut_ptr_run X.env (hsOf s.v s.sys.allocIdx) hd b.lay s.v.cap hl
+    have h1 : VM.lift X (dedup_by_pre X.env) s = (.ok (.cont ⟨es.length, .at (dataOff s.v.align)⟩), s) :=
+      lift_read X _ s _ (by
+        unfold dedup_by_pre
+        simp only [len_run, GM.bind_run, hL, hlt, decide_false, Bool.false_eq_true, if_false, hptr, GM.pure_run]
+        rfl)
+    have h2 := inb_blk s b hb es.length (by omega)
+    rw [hal] at h2
+    cases es with
+    | nil => simp at hlt
+    | cons e0 rest =>
+      have hgo := dedup_go_spec X same hs rest [e0] [] 0 s (by simpa using h) hd (by simp)
+      obtain ⟨s1, k2, r2, rej, hrun, habs1, hsub, hperm, hrp, hc1, hd1, hal1, hb1, htr1⟩ := hgo
+      simp only [List.length_singleton, List.length_nil, Nat.add_zero, List.nil_append] at hrun hrp
+      obtain ⟨v', ht, habs2, hb2, hc2, _⟩ := truncate_spec X hq s1 _ ([e0] ++ k2).length habs1
+      refine ⟨{ afterDrops X s1 ((([e0] ++ k2) ++ rej).drop ([e0] ++ k2).length) with v := v' }, [e0] ++ k2, rej,
+        ?_, by simpa using habs2, by simpa using hsub.cons₂ e0, ?_, ?_,
+        by simp only; rw [hc2, hc1], by simp only; rw [hb2, hb1]⟩
+      · unfold Vec.dedup_by
+        simp only [List.length_cons] at h2
+        simp only [VM.bind_run, h1, List.length_cons, Nat.add_sub_cancel, h2, hrun, ht]
+      · have : (k2 ++ rej).Perm rest := (List.Perm.append_left _ hrp).trans hperm
+        simpa using this.cons e0
+      · rw [afterDrops_own_tr, htr1]
+        simp
+
+theorem eqElem_sameSpec (X : Ctx) (hq : ∀ k, X.o.panicAt k = false) : SameSpec (fun _ a b => Vec.eqElem X a b) := by
+  intro k a b s
+  simp only [Vec.eqElem, VM.callback, hq, Bool.false_eq_true, if_false]
+  exact ⟨_, _, rfl, rfl, rfl⟩
+
+theorem pred2_sameSpec (X : Ctx) (hq : ∀ k, X.o.panicAt k = false) (f : Vec.Pred2) :
+    SameSpec (fun k a b => do VM.callback X; pure (f k a b)) := by
+  intro k a b s
+  simp only [VM.bind_run, VM.callback, hq, Bool.false_eq_true, if_false, VM.pure_run]
+  exact ⟨_, _, rfl, rfl, rfl⟩
+
+theorem key_sameSpec (X : Ctx) (hq : ∀ k, X.o.panicAt k = false) (key : Nat → Elem → Int) :
+    SameSpec (fun k a b => do
+      VM.callback X
+      let ka := key (2 * k) a
+      VM.callback X
+      let kb := key (2 * k + 1) b
+      pure (ka == kb)) := by
+  intro k a b s
+  simp only [VM.bind_run, VM.callback, hq, Bool.false_eq_true, if_false, VM.pure_run]
+  exact ⟨_, _, rfl, rfl, rfl⟩
+
 end MV
 
+#print axioms MV.dedup_by_spec
 #print axioms MV.retain_spec
